@@ -448,6 +448,15 @@ fn struct_init_block_inner(
     }
 }
 
+// The payload of the counterpart's variant is bound, in order, to f<index of this variant's next field that is not a ghost>
+fn variant_binding(index: &Index, ctx: &ImplContext) -> Member {
+    let bound_to = match ctx.input {
+        DataType::Struct(s) => s.fields.iter().filter(|x| x.attrs.ghost(&ctx.struct_attr.ty, &ctx.kind).is_none()).nth(index.index as usize).map(|x| x.idx),
+        DataType::Enum(_) => None,
+    };
+    Named(format_ident!("f{}", bound_to.unwrap_or(index.index as usize)))
+}
+
 fn designated_index(f: &Field, ctx: &ImplContext) -> Option<usize> {
     match f.attrs.applicable_attr(&ctx.kind, ctx.fallible, &ctx.struct_attr.ty) {
         Some(ApplicableAttr::Field(MemberAttrCore { member: Some(Unnamed(index)), .. })) => Some(index.index as usize),
@@ -1384,7 +1393,7 @@ impl<'a> ApplicableAttr<'a> {
             match (member, action) {
                 (Some(ident), Some(action)) => if let Unnamed(index) = ident {
                         if ctx.impl_type.is_variant() {
-                            let ident = Named(format_ident!("f{}", index.index));
+                            let ident = variant_binding(index, ctx);
                             quote_action(action, Some(&field_path(&ident)), ctx)
                         } else {
                             quote_action(action, Some(&field_path(ident)), ctx)
@@ -1393,7 +1402,11 @@ impl<'a> ApplicableAttr<'a> {
                         quote_action(action, Some(&field_path(ident)), ctx)
                     },
                 (Some(ident), None) => {
-                    let field_path = field_path(ident);
+                    // the payload of a variant is bound to f0, f1, ..: an index stands for the binding, not for a number
+                    let field_path = match ident {
+                        Unnamed(index) if ctx.impl_type.is_variant() => field_path(&variant_binding(index, ctx)),
+                        _ => field_path(ident),
+                    };
                     quote!(#obj #field_path)
                 }
                 (None, Some(action)) => quote_action(action, Some(&field_path(or())), ctx),
